@@ -476,6 +476,38 @@ FIXED_WITNESSES = [
     (("opt", "any"), ("some", ("s", "x")), ("some", ("i", 1)), ("some", ("s", "x"))),                           # X20
 ]
 
+# whole floats beyond the int64 range keep their kind and value on the way through JSON (both runtimes); the wire format of
+# the direct value streams carries int64 mantissas, so these run as programs only
+HUGE_FLOAT_PROGRAMS = [
+    ("fn main() {\n    let a: [float] = [10000000000000000000.0, -10000000000000000000.0, 30000000000000000000.0, 2.5, 9223372036854775808.0];\n"
+     "    let back: [float] = a.to_json().parse_json();\n    println(back == a, a == back);\n"
+     "    let o = new { big: 100000000000000000000.0, small: 0.5, l: [18446744073709551616.0] };\n"
+     "    let ob: { big: float, small: float, l: [float] } = o.to_json().parse_json();\n    println(ob == o, o == ob);\n"
+     "    let n: [[float]] = [[1.5, -700000000000000000000.0], [0.25]];\n    let nb: [[float]] = n.to_json().parse_json();\n    println(nb == n);\n}",
+     "true true\ntrue true\ntrue\n"),
+]
+
+
+def check_huge_floats(ctx):
+    go = core.go_lines("run", [f"(run (main {G.hexs(src)}))" for src, _ in HUGE_FLOAT_PROGRAMS], timeout=300)
+    for (src, want), g in zip(HUGE_FLOAT_PROGRAMS, go):
+        ctx.count(case_key=src, nontrivial=True)
+        rep = {"kind": "program", "source": src}
+        if g.startswith(("CRASH", "HANG")):
+            ctx.violation(dict(rep, go=g[:300]), f"value-law program crashed the harness: {g[:120]}")
+            continue
+        parts = dict(p.split("=", 1) for p in g.split(" | "))
+        if not parts.get("A", "").startswith("ACCEPT"):
+            ctx.broken.append(f"huge-float program is not accepted by the analyzer: {parts.get('A', '')[:160]}")
+            continue
+        for be in ("VM", "TREE"):
+            w = parts.get(be, "").split()
+            kv = dict(p.split("=", 1) for p in w[1:] if "=" in p)
+            out = core.unhex(kv["out"]) if "out" in kv else ""
+            if not w or w[0] != "OK" or out != want:
+                ctx.violation(dict(rep, backend=be, go=parts.get(be, "")[:400]),
+                              f"{be}: to_json / parse_json of floats beyond the int64 range does not give an equal value ({out!r}, expected {want!r})")
+
 
 def run_known(ctx):
     for e in core.load_known("C13"):
@@ -526,6 +558,7 @@ def run(ctx):
                                + gen_typed_values(ctx, 1000 if quick else 20000, json_safe=True, non_integral=True))
     ctx.coverage["roundtrip_cases_in_class"] = rt_stats
     check_clone(ctx, gen_mutations(ctx, 2500 if quick else 50000))
+    check_huge_floats(ctx)
     pstats = check_programs(ctx, gen_programs(ctx, 700 if quick else 12000))
     ctx.coverage["program_cases"] = pstats
     ctx.coverage["rule"] = ("same-type triples (equal, differing in exactly one place, unrelated; other field order; NFC/NFD "
